@@ -689,6 +689,19 @@ func runC12(r *common.Rand, tier string, o *common.Out, replay string) {
 		b := [][2]string{{"a", fmt.Sprintf("weight=%d", 1+(i+1)%4)}, {"b", "weight=2"}, {"c", fmt.Sprintf("weight=%d", 4-(i/4))}}
 		c12RunX(o, next(), "wrr", []c12op{{update: true, servers: a}, {selects: 9}, {update: true, servers: b}, {selects: 30}})
 	}
+	// a weight becomes unreadable (the server weighs 1) and is repaired by a later update that changes nothing else: the
+	// repaired weight is honoured from the next selection on
+	for i, broken := range []string{"weight=3x", "weight=3&zone=%zz", "weight=", "weight=abc", ""} {
+		for _, w := range []int{3, 5} {
+			good := [][2]string{{"a", fmt.Sprintf("weight=%d", w)}, {"b", "weight=2"}, {"c", "weight=1"}}
+			bad := [][2]string{{"a", strings.Replace(broken, "3", strconv.Itoa(w), 1)}, {"b", "weight=2"}, {"c", "weight=1"}}
+			ops := []c12op{{update: true, servers: good}, {selects: 2*w + 7}, {update: true, servers: bad}, {selects: 9 + i},
+				{update: true, servers: good}, {selects: 3 * (w + 3)}, {update: true, servers: good}, {selects: w + 4}}
+			c12Run(o, next(), "wrr", ops)
+			c12RunX(o, next(), "wrr", ops)
+			o.Count("weight-broken-then-repaired")
+		}
+	}
 	// the weight createWeighted derives from a server's raw metadata, against the model's own parse of the string
 	wg := []string{"weight=3", "weight=0", "weight=-2", "weight=+4", "weight=007", "weight=1e3", "weight=abc", "weight=", "", "weight=2&weight=5",
 		"w%65ight=6", "weight=%34", "weight=9223372036854775807", "weight=9223372036854775808", "x=1;weight=3", "weight=3;x", "%zz&weight=4",
